@@ -123,6 +123,14 @@ def m_result_is(ex, m, args, tys, st, fn):
     return [(st, r if m.group(1) == "is_ok" else tm.not_(r))]
 
 
+@model(r"^(?:std::option::)?Option::<.*>::ok_or::<.*>$")
+def m_option_ok_or(ex, m, args, tys, st, fn):
+    t = _concrete_tag(args[0], "Option::ok_or")
+    if t == 1:
+        return [(st, Enum(0, {0: [args[0].pay[1][0]]}, "Result"))]
+    return [(st, Enum(1, {1: [args[1]]}, "Result"))]
+
+
 @model(r"^(?:std::result::)?Result::<.*>::unwrap_or$")
 def m_result_unwrap_or(ex, m, args, tys, st, fn):
     t = _concrete_tag(args[0], "Result::unwrap_or")
